@@ -405,7 +405,9 @@ def at_most_once(ctx, facts, roles, u, name, cfg, K2="K2"):
             if expr_mentions(x, lambda y: y[0] == "call" and y[1] is not None and y[1].get("key") in interp_keys) or (
                     d.src is not None and expr_mentions(d.src, lambda y: y[0] == "call" and y[1] is not None and y[1].get("key") in interp_keys)):
                 return
-        sites.append((Site_(at_body, at_bi), d, anchor_of(at_body, at_bi), at_body))
+        st_ = Site_(at_body, at_bi)
+        st_.origin = sx          # the evaluation itself (inside a helper when at_body is the helper's caller)
+        sites.append((st_, d, anchor_of(at_body, at_bi), at_body))
 
     class Site_:
         def __init__(self, body, bi):
@@ -443,7 +445,15 @@ def at_most_once(ctx, facts, roles, u, name, cfg, K2="K2"):
                 continue
             # can one run execute both for the same operand?
             same_iter = d1.kind == "elem" and d2.kind == "elem" and d1.iteration == d2.iteration
-            if b1.key == b2.key:
+            o1, o2 = getattr(s1, "origin", None), getattr(s2, "origin", None)
+            if b1.key == b2.key and s1.bi == s2.bi and o1 is not None and o2 is not None and (o1.body.key != b1.key or o1.bi != s1.bi):
+                # both evaluations sit inside one invocation of a helper (described at the helper's one call site):
+                # whether one run reaches both is decided inside the helper
+                if o1.body.key == o2.body.key:
+                    co = same_iteration_reach(o1.body, o1.bi, o2.bi) or same_iteration_reach(o1.body, o2.bi, o1.bi) or o1.bi == o2.bi
+                else:
+                    co = True
+            elif b1.key == b2.key:
                 co = same_iteration_reach(b1, s1.bi, s2.bi) or same_iteration_reach(b1, s2.bi, s1.bi) if same_iter or b1.kind == "closure" else (s2.bi in b1.reachable(s1.bi) or s1.bi in b1.reachable(s2.bi))
             elif a1 is None or a2 is None:
                 co = True
@@ -455,7 +465,7 @@ def at_most_once(ctx, facts, roles, u, name, cfg, K2="K2"):
                 ctx.ok(K2 + ".at-most-once", "%s: %s / %s never run for the same operand (%s)" % (name, s1.where(), s2.where(), cfg), nontrivial=True)
                 continue
             view_unknown = lambda d_: d_.kind == "unknown" or (d_.view is not None and OD_unknown(d_.view))
-            if (view_unknown(d1) or view_unknown(d2)) and not same_iter:
+            if (view_unknown(d1) or view_unknown(d2)) and (not same_iter or d1.sub != d2.sub):
                 ctx.unread(K2 + ".at-most-once", "%s: %s ~ %s (%s)" % (name, s1.where(), s2.where(), cfg), "cannot tell which operands the evaluations at %s (%s) and %s (%s) denote" % (s1.where(), d1, s2.where(), d2), where=s2.where(), fn=b2.key)
                 continue
             ctx.fail(K2 + ".per-element", "%s: evaluate at %s and at %s (%s)" % (name, s1.where().rsplit(":", 1)[0], s2.where().rsplit(":", 1)[0], cfg),
